@@ -58,6 +58,10 @@ CaseOf(id, sh) ==
            \* (expanding such a list instead of using :is() changes the specificity of the nested rule)
            mixed |-> \E a \in 1..Len(sh) : MixedParent(sh[a].path),
            notamp |-> \E a \in 1..Len(sh) : NotAmpUnderList(sh[a].path),
+           \* an `inset` shorthand one of whose values is of newer syntax: lowered to four longhands it is no longer
+           \* valid or invalid as a whole
+           insetmix |-> \E a \in 1..Len(sh) : \E i \in 1..Len(sh[a].decls) :
+                          sh[a].decls[i].p = "inset" /\ DeclFeats(sh[a].decls[i]) \ {"inset"} # {},
            notampc |-> \E a \in 1..Len(sh) : sh[a].k = "rule" /\ NotAmpUnderComplex(sh[a].path),
            envs |-> [k \in 1..Len(envs) |-> [feats |-> envs[k].feats, conds |-> envs[k].conds]],
            win |-> [k \in 1..Len(envs) |-> Bind(WinTable(sh, info, envs[k]), LAMBDA t : Compact(t, U))]])))
